@@ -176,10 +176,32 @@ class Gen:
             D.const_expr[n] = expr
             if isinstance(v, int) and 1 <= v <= 40:
                 ints.append(n)
+                if rng.random() < 0.2:
+                    # a companion whose name extends this one (NCH / NCH_SPARE, K1 / K12), then both in one expression
+                    n2 = n + rng.choice(["_SPARE", "2", "_MAX", "X"])
+                    if n2 not in D.constants and n2 not in self.nm.used:
+                        self.nm.used.add(n2)
+                        v2 = rng.randint(1, 9)
+                        sections["constants"].append(f"  {n2}: {v2}")
+                        D.constants[n2], D.const_expr[n2] = v2, str(v2)
+                        ints.append(n2)
+                        n3 = self.nm.new("K_")
+                        form = rng.choice(["{a} + {b}", "{a} * {b} + {a}", "{b} - {a} + {a} * 2", "{a} + {b} + {a}"])
+                        e3 = form.format(a=n, b=n2)
+                        v3 = eval(e3, {}, {n: v, n2: v2})
+                        sections["constants"].append(f"  {n3}: {e3}")
+                        D.constants[n3], D.const_expr[n3] = v3, e3
+                        D.features.add("constant_name_extends_another")
+                        if 1 <= v3 <= 40:
+                            ints.append(n3)
         for _ in range(rng.randint(0, 2)):
             n = self.nm.new("STR_")
             s = "".join(rng.choice("abcdefXYZ 0123456789_-+=.,;:!@$^&*()[]{}<>/|~") for _ in range(rng.randint(0, 20))).strip() or "x"
-            sections["string_constants"].append(f"  {n}: '{s}'")
+            if rng.random() < 0.3:
+                # characters that need escaping in one or another target language
+                s = "".join(rng.choice("ab 01" + "\"\\'%#") for _ in range(rng.randint(1, 12))).strip() or "\""
+            y = s.replace("'", "''")
+            sections["string_constants"].append(f"  {n}: '{y}'")
             D.strings[n] = s
         # aliases (parsed before this file's structs: may only name natives, earlier aliases, imported structs)
         local_aliases = []
@@ -255,9 +277,17 @@ class Gen:
                     lenexpr = str(length)
                 else:
                     k = rng.choice(ints)
-                    form = rng.choice(["{k}", "{k} + 1", "{k} * 2"])
-                    lenexpr = form.format(k=k)
-                    length = eval(lenexpr, {}, {k: D.constants[k]})
+                    form = rng.choice(["{k}", "{k} + 1", "{k} * 2", "{k} + {j}", "{j} * {k}"])
+                    # (two constants in one length; when one name extends the other, the shorter one is put first)
+                    ext = [x for x in ints if x != k and x.startswith(k)]
+                    j = rng.choice(ext) if ext and rng.random() < 0.7 else rng.choice(ints)
+                    if form.startswith("{j}") and j.startswith(k) and j != k:
+                        form = "{k} * {j}"
+                    lenexpr = form.format(k=k, j=j)
+                    length = eval(lenexpr, {}, {k: D.constants[k], j: D.constants[j]})
+                    if not (1 <= length <= 400):
+                        lenexpr = form = "{k}".format(k=k)
+                        length = D.constants[k]
                     D.features.add("constant_length")
                 if length == 1:
                     D.features.add("length_one")
